@@ -190,7 +190,7 @@ AGENT_CHECKS = {
     },
     "C28": {
         "pkg": "p28",
-        "runs": [_r("TestC28", 50000, 5000000)],
+        "runs": [_r("TestC28", 50000, 5000000), _r("TestC28Issued", 800, 20000, qt=600, tt=3000)],
         "fuzz": [{"target": "FuzzC28", "seconds": 300}],
         "rule": "rapid draws (encoder: base64 only | AES-GCM key + base64; position: ULID / offset / arbitrary string / JSON; type filter incl. '|' and "
                 "hostile unicode; a second issued token; a foreign key) and one positional mutation of the issued token: bit/byte flip in nonce / "
